@@ -4,7 +4,8 @@ package interp
 //
 // A symbolic rune r is a BitVec-32 variable with a class variable cls!r ranging over the
 // REALIZABLE attribute vectors of Go's Unicode tables, computed at start-up by scanning all
-// 0x110000 code points: <IsLower, IsUpper, IsLetter, IsNumber, IsDigit, r=='_', r=='*'> for
+// 0x110000 code points: <IsLower, IsUpper, IsLetter, IsNumber, IsDigit, r=='_', r=='*',
+// IsSpace, IsPunct, IsSymbol, IsMark, IsControl> for
 // r itself and for ToUpper(r), ToTitle(r), ToLower(r), plus "map(r) == r".  unicode.Is* on a
 // symbolic rune is a table lookup over cls; ToUpper/ToTitle/ToLower return the derived rune
 // (up r) / (title r) / (low r) whose attributes come from the same vector.  A witness code
@@ -22,7 +23,7 @@ import (
 
 type runeStr []value // each element: rune (int32) or sym BV32
 
-var runeAttrNames = []string{"lower", "upper", "letter", "number", "digit", "underscore", "star"}
+var runeAttrNames = []string{"lower", "upper", "letter", "number", "digit", "underscore", "star", "space", "punct", "symbol", "mark", "control"}
 var runeMaps = []string{"", "up", "title", "low"}
 
 type runeClasses struct {
@@ -40,7 +41,8 @@ func runeVector(r rune) []bool {
 	var v []bool
 	maps := []rune{r, unicode.ToUpper(r), unicode.ToTitle(r), unicode.ToLower(r)}
 	for _, m := range maps {
-		v = append(v, unicode.IsLower(m), unicode.IsUpper(m), unicode.IsLetter(m), unicode.IsNumber(m), unicode.IsDigit(m), m == '_', m == '*')
+		v = append(v, unicode.IsLower(m), unicode.IsUpper(m), unicode.IsLetter(m), unicode.IsNumber(m), unicode.IsDigit(m), m == '_', m == '*',
+			unicode.IsSpace(m), unicode.IsPunct(m), unicode.IsSymbol(m), unicode.IsMark(m), unicode.IsControl(m))
 	}
 	for _, m := range maps {
 		v = append(v, m == r)
